@@ -47,11 +47,16 @@ Definition pairs (b b' : cat) : list (feat * feat) := combine (feats b) (feats b
 Definition matches (b b' : cat) : Prop :=
   skeleton b = skeleton b' /\ Forall (fun p => compatible (fst p) (snd p)) (pairs b b').
 
-(* c' is c with feature variables instantiated from the comparisons P: an atom keeps its triple, or its variable triple f
-   is replaced, as a whole, by a triple g it was compared with (on either side) and which it subsumes *)
+(* a comparison (fx, fy) of P binds the variable triple f to g: f is the side that subsumes the other one
+   (the side of x is asked first; the side of y only when the triple of x does not subsume) *)
+Definition binds_to (P : list (feat * feat)) (f g : feat) : Prop :=
+  variable f /\ ((In (f, g) P /\ subsumes f g) \/ (In (g, f) P /\ ~ subsumes g f /\ subsumes f g)).
+Definition bound (P : list (feat * feat)) (f : feat) : Prop := exists g, binds_to P f g.
+(* c' is c with feature variables instantiated from the comparisons P: an atom whose triple is not bound by any comparison keeps
+   it; a bound variable triple f is replaced, as a whole, by a triple g some comparison binds it to *)
 Inductive inst (P : list (feat * feat)) : cat -> cat -> Prop :=
-| inst_keep b f : inst P (Atom b f) (Atom b f)
-| inst_var b f g : variable f -> subsumes f g -> In (f, g) P \/ In (g, f) P -> inst P (Atom b f) (Atom b g)
+| inst_keep b f : ~ bound P f -> inst P (Atom b f) (Atom b f)
+| inst_var b f g : binds_to P f g -> inst P (Atom b f) (Atom b g)
 | inst_fun l s r l' r' : inst P l l' -> inst P r r' -> inst P (Fun l s r) (Fun l' s r').
 
 (* outer arguments around a core category: wrap core [(s1,d1);(s2,d2)] = (core s1 d1) s2 d2 *)
